@@ -134,8 +134,9 @@ MEMO_ANCHORS = [("BPTK_Py.modeling.model", "ifnormalized_arginmymemo", "C"),
                 ("BPTK_Py.modeling.model", r"re:mymemo\.setdefault\(", "S")]
 
 
-def run_schedule(kinds, schedule):
-    """kinds: thread id -> "x" | "z"; forces the schedule on Model.memoize of the shared stochastic element x"""
+def run_schedule(kinds, schedule, fine=False):
+    """kinds: thread id -> "x" | "z"; forces the schedule on Model.memoize of the shared stochastic element x.
+    fine: every source line executed inside memoize('x', ..) is a scheduling point (not only Check / Compute / Store)"""
     common.use_repo()
     from BPTK_Py import Model
     m = Model(starttime=0.0, stoptime=1.0, dt=1.0, name="thr")
@@ -147,10 +148,11 @@ def run_schedule(kinds, schedule):
     x = m.converter("x"); x.equation = fn()
     z = m.converter("z"); z.equation = x * 1.0
     ctl = sched.Controller(lambda: (False, 0), anchors=MEMO_ANCHORS, required={"C", "P", "S"},
-                           park_filter=lambda frame: frame.f_locals.get("equation") == "x")
+                           park_filter=lambda frame: frame.f_locals.get("equation") == "x",
+                           internal=[("BPTK_Py.modeling.model", "memoize")] if fine else [])
     for tid, k in sorted(kinds.items()):
         ctl.spawn(tid, (lambda k=k: m.evaluate_equation(k, 0.0)))
-    ctl.run(schedule)
+    ctl.run(schedule, fine)
     res = {tid: (w.result, w.error) for tid, w in ctl.workers.items()}
     cell = m.memo["x"].get(0.0)
     return res, cell, draws, ctl.events
@@ -238,6 +240,25 @@ def run(tier, replay_file=None):
                              "events": events})
                 if len(R.violations) >= 15:
                     break
+    # line-level preemption inside memoize (also the lines before Check: looking up / creating the element's memo dictionary):
+    # thread 1 runs i lines, thread 2 runs j lines, then they alternate line by line
+    rngf = range(0, 5) if quick else range(0, 9)
+    for kinds in ({"t1": "x", "t2": "z"}, {"t1": "z", "t2": "z"}):
+        for i in rngf:
+            for j in rngf:
+                sc = ["t1"] * i + ["t2"] * j
+                res, cell, draws, events = run_schedule(kinds, sc, fine=True)
+                nsched += 1
+                R.add("traces_validated_against_impl"); R.add("line_level_schedules")
+                vals = {tid: r[0] for tid, r in res.items()}
+                errs = {tid: str(r[1]) for tid, r in res.items() if r[1] is not None}
+                if errs or len(set(vals.values())) != 1 or cell not in vals.values():
+                    R.violation("one (element, time) has several values within a run",
+                                {"threads": kinds, "schedule": sc, "every_line_of_memoize_is_a_step": True, "reported_per_thread": vals, "memo_cell": cell,
+                                 "draws": draws, "errors": errs})
+                    break
+            if len(R.violations) >= 15:
+                break
     # the sequential schedule on decimal grids (consumers reach the stochastic element through t - dt chains)
     for dt, steps in ((0.1, 12), (0.2, 8), (0.25, 6), (0.05, 10), (1.0, 4)):
         bad = conservation(dt, steps)
